@@ -308,6 +308,11 @@ impl Envelope {
                     } else {
                         return Some(Err(anyhow::anyhow!("Unexpected outer signature object type.")));
                     }
+                } else {
+                    // Without an outer signature nothing covers the metadata
+                    // in the wrapped envelope, so this is not a signature
+                    // with metadata from any key.
+                    return None;
                 }
 
                 let signature_metadata_envelope = signature_object_subject.unwrap_envelope().unwrap();
